@@ -37,6 +37,9 @@ func init() {
 	})
 }
 
+var c01Prev *smf.SMF
+var c01PrevShown string
+
 func runC01(c Case, m *Model) (v Verdict) {
 	if strings.HasPrefix(c.Op, "c01.manytracks") {
 		var n int
@@ -97,6 +100,34 @@ func runC01(c Case, m *Model) (v Verdict) {
 	rb := readClass(w.Bytes())
 	if rb != "ok:"+built {
 		v.Oracle = append(v.Oracle, "read-back differs from the written value: wrote "+short(built)+" read "+short(rb))
+	}
+	// the value read back is a full citizen: written again (same running-status setting) it gives the same bytes, and
+	// it keeps its content while the library reads and writes other files (checked at the next case)
+	if c01Prev != nil {
+		if now := showSMF(c01Prev); now != c01PrevShown {
+			v.Oracle = append(v.Oracle, "a value returned by an earlier ReadFrom changed while the library was used again: was "+short(c01PrevShown)+" now "+short(now))
+		}
+		c01Prev = nil
+	}
+	if rb == "ok:"+built {
+		var s2 *smf.SMF
+		var w2 bytes.Buffer
+		var e2 error
+		if p := try(func() {
+			s2, e2 = smf.ReadFrom(bytes.NewReader(w.Bytes()))
+			if e2 == nil {
+				s2.NoRunningStatus = s.NoRunningStatus
+				_, e2 = s2.WriteTo(&w2)
+			}
+		}); p != "" {
+			v.Oracle = append(v.Oracle, "panic while writing the value that was read back: "+p)
+		} else if e2 != nil {
+			v.Oracle = append(v.Oracle, "the value that was read back cannot be written: "+e2.Error())
+		} else if !bytes.Equal(w2.Bytes(), w.Bytes()) {
+			v.Oracle = append(v.Oracle, fmt.Sprintf("writing the value that was read back gives other bytes (first difference at %d of %d/%d)", firstDiff(w2.Bytes(), w.Bytes()), w2.Len(), w.Len()))
+		} else {
+			c01Prev, c01PrevShown = s2, showSMF(s2)
+		}
 	}
 	// tie (content only): model reader on the implementation's bytes, implementation reader on the model's bytes
 	if mr := fields(m.Ask("smf.read " + hx(w.Bytes())))["r"]; mr != rb {
